@@ -960,7 +960,6 @@ verus! {
                 proof {
                     let io = ArmIO { rg: rg_in, ops: ops_in, c: ctx, f: f_in, st: st_in, rg_out: rgce@, f_out: formula@, st_out: stack@ };
                     //# C14.ptgref3d_sheet_and_text
-                    assume(ptgref3d_sheet_and_text(io)); // DEV
                     assert(ptgref3d_sheet_and_text(io)) by {
                         lemma_cell_text(le16(rg_in.skip(1).skip(2)), le16(rg_in.skip(1).skip(4)));
                         lemma_arm_operand(rg_in, ops_in, ctx, f_in, st_in, rgce@, formula@, stack@);
@@ -970,7 +969,6 @@ verus! {
                 proof {
                     let io = ArmIO { rg: rg_in, ops: ops_in, c: ctx, f: f_in, st: st_in, rg_out: rgce@, f_out: formula@, st_out: stack@ };
                     //# C14.ptgarea3d_sheet_and_text
-                    assume(ptgarea3d_sheet_and_text(io)); // DEV
                     assert(ptgarea3d_sheet_and_text(io)) by {
                         lemma_area_text(le16(rg_in.skip(1).skip(2)), le16(rg_in.skip(1).skip(4)), le16(rg_in.skip(1).skip(6)), le16(rg_in.skip(1).skip(8)));
                         lemma_cell_text(le16(rg_in.skip(1).skip(2)), le16(rg_in.skip(1).skip(6)));
@@ -982,7 +980,6 @@ verus! {
                 proof {
                     let io = ArmIO { rg: rg_in, ops: ops_in, c: ctx, f: f_in, st: st_in, rg_out: rgce@, f_out: formula@, st_out: stack@ };
                     //# C14.ptgreferr3d_sheet
-                    assume(ptgreferr3d_sheet(io)); // DEV
                     assert(ptgreferr3d_sheet(io)) by {
                         lemma_arm_operand(rg_in, ops_in, ctx, f_in, st_in, rgce@, formula@, stack@);
                     }
@@ -991,7 +988,6 @@ verus! {
                 proof {
                     let io = ArmIO { rg: rg_in, ops: ops_in, c: ctx, f: f_in, st: st_in, rg_out: rgce@, f_out: formula@, st_out: stack@ };
                     //# C14.ptgareaerr3d_sheet
-                    assume(ptgareaerr3d_sheet(io)); // DEV
                     assert(ptgareaerr3d_sheet(io)) by {
                         lemma_arm_operand(rg_in, ops_in, ctx, f_in, st_in, rgce@, formula@, stack@);
                     }
@@ -1000,7 +996,6 @@ verus! {
                 proof {
                     let io = ArmIO { rg: rg_in, ops: ops_in, c: ctx, f: f_in, st: st_in, rg_out: rgce@, f_out: formula@, st_out: stack@ };
                     //# C14.ptgexp_outside_oracle
-                    assume(ptgexp_outside_oracle(io)); // DEV
                     assert(ptgexp_outside_oracle(io)) by {
                     }
                 }
@@ -1008,7 +1003,6 @@ verus! {
                 proof {
                     let io = ArmIO { rg: rg_in, ops: ops_in, c: ctx, f: f_in, st: st_in, rg_out: rgce@, f_out: formula@, st_out: stack@ };
                     //# C14.binary_operator_order
-                    assume(binary_operator_order(io)); // DEV
                     assert(binary_operator_order(io)) by {
                         lemma_arm_binary(rg_in, ops_in, ctx, f_in, st_in, rgce@, formula@, stack@);
                     }
@@ -1017,7 +1011,6 @@ verus! {
                 proof {
                     let io = ArmIO { rg: rg_in, ops: ops_in, c: ctx, f: f_in, st: st_in, rg_out: rgce@, f_out: formula@, st_out: stack@ };
                     //# C14.unary_plus_text
-                    assume(unary_plus_text(io)); // DEV
                     assert(unary_plus_text(io)) by {
                         lemma_arm_top(rg_in, ops_in, ctx, f_in, st_in, rgce@, formula@, stack@, seq!['+'], Seq::empty());
                     }
@@ -1026,7 +1019,6 @@ verus! {
                 proof {
                     let io = ArmIO { rg: rg_in, ops: ops_in, c: ctx, f: f_in, st: st_in, rg_out: rgce@, f_out: formula@, st_out: stack@ };
                     //# C14.unary_minus_text
-                    assume(unary_minus_text(io)); // DEV
                     assert(unary_minus_text(io)) by {
                         lemma_arm_top(rg_in, ops_in, ctx, f_in, st_in, rgce@, formula@, stack@, seq!['-'], Seq::empty());
                     }
@@ -1035,7 +1027,6 @@ verus! {
                 proof {
                     let io = ArmIO { rg: rg_in, ops: ops_in, c: ctx, f: f_in, st: st_in, rg_out: rgce@, f_out: formula@, st_out: stack@ };
                     //# C14.percent_text
-                    assume(percent_text(io)); // DEV
                     assert(percent_text(io)) by {
                         lemma_arm_top(rg_in, ops_in, ctx, f_in, st_in, rgce@, formula@, stack@, Seq::empty(), seq!['%']);
                     }
@@ -1044,7 +1035,6 @@ verus! {
                 proof {
                     let io = ArmIO { rg: rg_in, ops: ops_in, c: ctx, f: f_in, st: st_in, rg_out: rgce@, f_out: formula@, st_out: stack@ };
                     //# C14.paren_text
-                    assume(paren_text(io)); // DEV
                     assert(paren_text(io)) by {
                         lemma_arm_top(rg_in, ops_in, ctx, f_in, st_in, rgce@, formula@, stack@, seq!['('], seq![')']);
                     }
@@ -1053,7 +1043,6 @@ verus! {
                 proof {
                     let io = ArmIO { rg: rg_in, ops: ops_in, c: ctx, f: f_in, st: st_in, rg_out: rgce@, f_out: formula@, st_out: stack@ };
                     //# C14.ptgmissarg_empty_operand
-                    assume(ptgmissarg_empty_operand(io)); // DEV
                     assert(ptgmissarg_empty_operand(io)) by {
                         lemma_arm_operand(rg_in, ops_in, ctx, f_in, st_in, rgce@, formula@, stack@);
                     }
@@ -1062,7 +1051,6 @@ verus! {
                 proof {
                     let io = ArmIO { rg: rg_in, ops: ops_in, c: ctx, f: f_in, st: st_in, rg_out: rgce@, f_out: formula@, st_out: stack@ };
                     //# C14.ptgstr_text_and_length
-                    assume(ptgstr_text_and_length(io)); // DEV
                     assert(ptgstr_text_and_length(io)) by {
                         lemma_arm_operand(rg_in, ops_in, ctx, f_in, st_in, rgce@, formula@, stack@);
                     }
@@ -1071,7 +1059,6 @@ verus! {
                 proof {
                     let io = ArmIO { rg: rg_in, ops: ops_in, c: ctx, f: f_in, st: st_in, rg_out: rgce@, f_out: formula@, st_out: stack@ };
                     //# C14.ptg18_outside_oracle
-                    assume(ptg18_outside_oracle(io)); // DEV
                     assert(ptg18_outside_oracle(io)) by {
                     }
                 }
@@ -1079,7 +1066,6 @@ verus! {
                 proof {
                     let io = ArmIO { rg: rg_in, ops: ops_in, c: ctx, f: f_in, st: st_in, rg_out: rgce@, f_out: formula@, st_out: stack@ };
                     //# C14.ptgattr_skip_and_sum
-                    assume(ptgattr_skip_and_sum(io)); // DEV
                     assert(ptgattr_skip_and_sum(io)) by {
                         lemma_arm_skip(rg_in, ops_in, ctx, f_in, st_in, rgce@, formula@, stack@);
                         reveal_strlit(")");
@@ -1090,7 +1076,6 @@ verus! {
                 proof {
                     let io = ArmIO { rg: rg_in, ops: ops_in, c: ctx, f: f_in, st: st_in, rg_out: rgce@, f_out: formula@, st_out: stack@ };
                     //# C14.ptgerr_text
-                    assume(ptgerr_text(io)); // DEV
                     assert(ptgerr_text(io)) by {
                         lemma_arm_operand(rg_in, ops_in, ctx, f_in, st_in, rgce@, formula@, stack@);
                     }
@@ -1099,7 +1084,6 @@ verus! {
                 proof {
                     let io = ArmIO { rg: rg_in, ops: ops_in, c: ctx, f: f_in, st: st_in, rg_out: rgce@, f_out: formula@, st_out: stack@ };
                     //# C14.ptgbool_text
-                    assume(ptgbool_text(io)); // DEV
                     assert(ptgbool_text(io)) by {
                         lemma_arm_operand(rg_in, ops_in, ctx, f_in, st_in, rgce@, formula@, stack@);
                     }
@@ -1108,7 +1092,6 @@ verus! {
                 proof {
                     let io = ArmIO { rg: rg_in, ops: ops_in, c: ctx, f: f_in, st: st_in, rg_out: rgce@, f_out: formula@, st_out: stack@ };
                     //# C14.ptgint_text
-                    assume(ptgint_text(io)); // DEV
                     assert(ptgint_text(io)) by {
                         lemma_arm_operand(rg_in, ops_in, ctx, f_in, st_in, rgce@, formula@, stack@);
                     }
@@ -1117,7 +1100,6 @@ verus! {
                 proof {
                     let io = ArmIO { rg: rg_in, ops: ops_in, c: ctx, f: f_in, st: st_in, rg_out: rgce@, f_out: formula@, st_out: stack@ };
                     //# C14.ptgnum_text
-                    assume(ptgnum_text(io)); // DEV
                     assert(ptgnum_text(io)) by {
                         lemma_arm_operand(rg_in, ops_in, ctx, f_in, st_in, rgce@, formula@, stack@);
                     }
@@ -1126,7 +1108,6 @@ verus! {
                 proof {
                     let io = ArmIO { rg: rg_in, ops: ops_in, c: ctx, f: f_in, st: st_in, rg_out: rgce@, f_out: formula@, st_out: stack@ };
                     //# C14.ptgarray_outside_oracle
-                    assume(ptgarray_outside_oracle(io)); // DEV
                     assert(ptgarray_outside_oracle(io)) by {
                     }
                 }
@@ -1134,7 +1115,6 @@ verus! {
                 proof {
                     let io = ArmIO { rg: rg_in, ops: ops_in, c: ctx, f: f_in, st: st_in, rg_out: rgce@, f_out: formula@, st_out: stack@ };
                     //# C14.ptgname_text
-                    assume(ptgname_text(io)); // DEV
                     assert(ptgname_text(io)) by {
                         lemma_arm_operand(rg_in, ops_in, ctx, f_in, st_in, rgce@, formula@, stack@);
                     }
@@ -1143,7 +1123,6 @@ verus! {
                 proof {
                     let io = ArmIO { rg: rg_in, ops: ops_in, c: ctx, f: f_in, st: st_in, rg_out: rgce@, f_out: formula@, st_out: stack@ };
                     //# C14.ptgref_text
-                    assume(ptgref_text(io)); // DEV
                     assert(ptgref_text(io)) by {
                         lemma_cell_text(le16(rg_in.skip(1)), le16(rg_in.skip(1).skip(2)));
                         lemma_arm_operand(rg_in, ops_in, ctx, f_in, st_in, rgce@, formula@, stack@);
@@ -1153,7 +1132,6 @@ verus! {
                 proof {
                     let io = ArmIO { rg: rg_in, ops: ops_in, c: ctx, f: f_in, st: st_in, rg_out: rgce@, f_out: formula@, st_out: stack@ };
                     //# C14.ptgarea_text
-                    assume(ptgarea_text(io)); // DEV
                     assert(ptgarea_text(io)) by {
                         lemma_area_text(le16(rg_in.skip(1)), le16(rg_in.skip(1).skip(2)), le16(rg_in.skip(1).skip(4)), le16(rg_in.skip(1).skip(6)));
                         lemma_cell_text(le16(rg_in.skip(1)), le16(rg_in.skip(1).skip(4)));
@@ -1165,7 +1143,6 @@ verus! {
                 proof {
                     let io = ArmIO { rg: rg_in, ops: ops_in, c: ctx, f: f_in, st: st_in, rg_out: rgce@, f_out: formula@, st_out: stack@ };
                     //# C14.ptgreferr_text
-                    assume(ptgreferr_text(io)); // DEV
                     assert(ptgreferr_text(io)) by {
                         lemma_arm_operand(rg_in, ops_in, ctx, f_in, st_in, rgce@, formula@, stack@);
                     }
@@ -1174,7 +1151,6 @@ verus! {
                 proof {
                     let io = ArmIO { rg: rg_in, ops: ops_in, c: ctx, f: f_in, st: st_in, rg_out: rgce@, f_out: formula@, st_out: stack@ };
                     //# C14.ptgareaerr_text
-                    assume(ptgareaerr_text(io)); // DEV
                     assert(ptgareaerr_text(io)) by {
                         lemma_arm_operand(rg_in, ops_in, ctx, f_in, st_in, rgce@, formula@, stack@);
                     }
@@ -1183,9 +1159,33 @@ verus! {
                 proof {
                     let io = ArmIO { rg: rg_in, ops: ops_in, c: ctx, f: f_in, st: st_in, rg_out: rgce@, f_out: formula@, st_out: stack@ };
                     //# C14.ptgnamex_outside_oracle
-                    assume(ptgnamex_outside_oracle(io)); // DEV
                     assert(ptgnamex_outside_oracle(io)) by {
                     }
+                }
+//@@ before /push_column\(col as u32, &mut formula\);/#1of2
+                let ghost rw = le16(rg_in.skip(1));
+                let ghost cf = le16(rg_in.skip(1).skip(2));
+                let ghost g1 = formula@;
+                proof {
+                    //# C14.ptgref_column_dollar_iff_absolute
+                    assert(g1 =~= f_in + dollar(!f_col_rel(cf)));
+                }
+//@@ after /push_column\(col as u32, &mut formula\);/#1of2
+                let ghost g2 = formula@;
+                proof {
+                    //# C14.ptgref_column_letters
+                    assert(g2 =~= g1 + col_name(f_col(cf)));
+                }
+//@@ before /formula\.push_str\(&format!/
+                let ghost g3 = formula@;
+                proof {
+                    //# C14.ptgref_row_dollar_iff_absolute
+                    assert(g3 =~= g2 + dollar(!f_row_rel(cf)));
+                }
+//@@ after /formula\.push_str\(&format!\([^;]*;/
+                proof {
+                    //# C14.ptgref_row_number
+                    assert(formula@ =~= g3 + dec((rw + 1) as nat));
                 }
 //@@ loop 1
                             // PtgAttrSpace is outside the oracle: under the hypothesis of this copy the arm is not reached
@@ -1220,6 +1220,10 @@ verus! {
                             assert(st_in[k0] <= st_in[k0 + i]);
                         }
                         lemma_repr_suffix(f_in, st_in, ops_in, k0, offs);
+                    }
+//@@ after /let start = args\[0\];/
+                    proof {
+                        assert forall|i: int| 0 <= i < a0.len() implies (#[trigger] a0[i]) >= start by { assert(a0[i] == st_in[k0 + i]); assert(st_in[k0] <= st_in[k0 + i]); }
                     }
 //@@ loop 2 it2
                         invariant
@@ -1266,6 +1270,17 @@ verus! {
                         }
 //@@ before /formula\.pop\(\);/
                     proof { lemma_joinc_join(aa, argc as int); assert(aa.take(argc as int) =~= aa); }
+//@@ after /formula\.push\('\)'\);/#1of2
+                    proof {
+                        assert(formula@ =~= pp + nm + seq!['('] + join(aa) + seq![')']);
+                        assert(stack@ =~= st_in.take(k0).push(st_in[k0]));
+                    }
+//@@ after /formula\.push_str\("\(\)"\);/
+                    proof {
+                        reveal_strlit("()");
+                        assert(formula@ =~= f_in + ftab_name(iftab as int) + seq!['(', ')']);
+                        assert(stack@ =~= st_in.push(blen(f_in) as usize));
+                    }
 //@@ before /\}\s*0x23 \| 0x43 \| 0x63 =>/
                 proof {
                     let io = ArmIO { rg: rg_in, ops: ops_in, c: ctx, f: f_in, st: st_in, rg_out: rgce@, f_out: formula@, st_out: stack@ };
